@@ -13,6 +13,9 @@ pub enum Family {
     C05,
     C06,
     C07,
+    /// C07 by fault enumeration: per base scenario every step x {FIN, RST, write error} and every
+    /// byte offset of the peer's stream x {FIN, RST}
+    C07X,
     C08,
     C10,
     /// C10 at connection level: streamed payloads through the real dispatcher and handler
@@ -41,6 +44,7 @@ impl Family {
             "C05" => Family::C05,
             "C06" => Family::C06,
             "C07" => Family::C07,
+            "C07X" => Family::C07X,
             "C08" => Family::C08,
             "C11" => Family::C11,
             "C12" => Family::C12,
@@ -65,6 +69,7 @@ impl Family {
             Family::C05 => "C05",
             Family::C06 => "C06",
             Family::C07 => "C07",
+            Family::C07X => "C07X",
             Family::C08 => "C08",
             Family::C11 => "C11",
             Family::C12 => "C12",
@@ -89,6 +94,7 @@ pub const ALL_FAMILIES: &[Family] = &[
     Family::C05,
     Family::C06,
     Family::C07,
+    Family::C07X,
     Family::C08,
     Family::C11,
     Family::C12,
@@ -112,6 +118,7 @@ pub fn generate(f: Family, ch: &mut Choices) -> Plan {
         Family::C05 => gen_outbound(OutKind::C05, ch),
         Family::C06 => gen_outbound(OutKind::C06, ch),
         Family::C07 => gen_c07(ch),
+        Family::C07X => gen_c07x(ch),
         Family::C08 => gen_outbound(OutKind::C08, ch),
         Family::C11 => gen_c11(ch),
         Family::C12 => gen_c12(ch),
@@ -655,11 +662,13 @@ pub fn undecodable(ch: &mut Choices) -> (Vec<u8>, &'static str) {
     }
 }
 
-fn gen_c07(ch: &mut Choices) -> Plan {
+/// Base scenario of the teardown families: inbound publishes with gated / held handlers and payloads
+/// in pieces, senders awaiting acks or parked on a small window, optional write back-pressure.
+/// `small`: payloads of at most 40 bytes (the byte-offset sweep enumerates the whole stream).
+fn c07_base(family: &'static str, ch: &mut Choices, small: bool) -> Plan {
     let role = pick_role(ch);
     let ver = role.ver();
-    let v5 = ver == Ver::V5;
-    let mut plan = base_plan("C07", role, ch);
+    let mut plan = base_plan(family, role, ch);
     plan.cfg.use_router = false;
     plan.cfg.ctl_gated = ch.chance(1, 2);
     plan.w_ctl = *ch.pick(&[[1u32, 0, 0], [2, 1, 1]]);
@@ -672,7 +681,7 @@ fn gen_c07(ch: &mut Choices) -> Plan {
     let n_in = ch.choose(5);
     for i in 0..n_in {
         let qos = if role.is_server() || ch.chance(1, 2) { ch.choose(3) as u8 } else { ch.choose(2) as u8 };
-        let len = *ch.pick(&[2usize, 40, 300, 2000]);
+        let len = if small { *ch.pick(&[2usize, 40, 0, 17]) } else { *ch.pick(&[2usize, 40, 300, 2000]) };
         let pid = if qos > 0 { Some(10 + i as u16) } else { None };
         let mut p = mk_publish(ver, ch, i, qos, pid, len);
         p.dup = false;
@@ -728,6 +737,16 @@ fn gen_c07(ch: &mut Choices) -> Plan {
         plan.cfg.wr_hw = 64;
         plan.cfg.wr_lw = 16;
     }
+    plan.ending = Ending::SettleThenFin;
+    plan.max_steps = 12_000;
+    plan
+}
+
+fn gen_c07(ch: &mut Choices) -> Plan {
+    let mut plan = c07_base("C07", ch, false);
+    let role = plan.role;
+    let ver = role.ver();
+    let v5 = ver == Ver::V5;
     // -- the termination cause
     let span = 20 + 15 * (plan.peer.script.len() as u32 + plan.senders.len() as u32);
     match ch.choose(10) {
@@ -812,8 +831,46 @@ fn gen_c07(ch: &mut Choices) -> Plan {
         }
         _ => {} // nothing special: the closing FIN of the run ends the connection
     }
-    plan.ending = Ending::SettleThenFin;
-    plan.max_steps = 12_000;
+    plan
+}
+
+/// Positions enumerated per base scenario by the C07X sweep.
+pub const C07X_STEPS: u32 = 96;
+pub const C07X_BYTES: u32 = 256;
+pub const C07X_OUT: u32 = 128;
+/// runs per base scenario: 3 step-positioned causes, 2 causes positioned at a byte of the peer's
+/// stream, 1 positioned at a byte of the endpoint's output
+pub const C07X_PER_BASE: u64 = 3 * C07X_STEPS as u64 + 2 * C07X_BYTES as u64 + C07X_OUT as u64;
+
+/// Index within one base scenario -> the two leading draws (cause, position).
+pub fn c07x_point(r: u64) -> (u32, u32) {
+    let s = u64::from(C07X_STEPS);
+    let b = u64::from(C07X_BYTES);
+    if r < 3 * s {
+        ((r / s) as u32, (r % s) as u32)
+    } else if r < 3 * s + 2 * b {
+        (3 + ((r - 3 * s) / b) as u32, ((r - 3 * s) % b) as u32)
+    } else {
+        (5, (r - 3 * s - 2 * b) as u32)
+    }
+}
+
+/// Fault enumeration for C07: the first two draws name the fault (cause, position); every other
+/// draw of the run comes from the base scenario's own seed (see batch::mode_of), so that the runs of
+/// one base scenario differ only in where the connection is lost.
+fn gen_c07x(ch: &mut Choices) -> Plan {
+    let cause = ch.choose(6);
+    let pos = ch.choose(C07X_STEPS.max(C07X_BYTES).max(C07X_OUT));
+    let mut plan = c07_base("C07X", ch, true);
+    match cause {
+        0 => plan.faults.fin_at_step = Some(1 + u64::from(pos)),
+        1 => plan.faults.rst_at_step = Some(1 + u64::from(pos)),
+        2 => plan.faults.wr_err_at_step = Some(1 + u64::from(pos)),
+        3 => plan.faults.close_after_bytes = Some((u64::from(pos), false)),
+        4 => plan.faults.close_after_bytes = Some((u64::from(pos), true)),
+        _ => plan.faults.wr_err_after_bytes = Some(u64::from(pos)),
+    }
+    plan.tags.push(format!("sweep:{}@{pos}", ["fin-step", "rst-step", "wrerr-step", "fin-byte", "rst-byte", "wrerr-outbyte"][cause as usize]));
     plan
 }
 
